@@ -65,6 +65,21 @@ def segments(term, P):
                 segs.append(Seg('fld', size=size, signed=signed, fkind=kind,
                                 order=order, operand=operand_desc(arg, P),
                                 arg=arg, fmt=p.args[0]))
+        elif isinstance(p, Sym) and p.op == 'cond' and \
+                isinstance(p.args[1], bytes) and \
+                isinstance(p.args[2], bytes) and \
+                len(p.args[1]) == len(p.args[2]) == 1:
+            # one of two constant octets chosen by a condition: an unsigned
+            # octet field whose value is cond(g, a, b)
+            g, a, b = p.args
+            arg = T.cond(g, a[0], b[0])
+            truth = isinstance(g, Sym) and (
+                (g.op == 'truthy' and g.args[0] is P) or g is P or
+                (g.op == 'ne' and g.args[0] is P and g.args[1] == 0))
+            op_ = ('bool(value)',) if truth and (a[0], b[0]) == (1, 0) \
+                else ('expr', arg)
+            segs.append(Seg('fld', size=1, signed=False, fkind='int',
+                            order='any', operand=op_, arg=arg, fmt='B'))
         elif isinstance(p, Sym) and p.op == 'utf8':
             segs.append(Seg('utf8', of=p.args[0], term=p))
         elif p is P:
